@@ -79,12 +79,7 @@ for _n in ('C18_memo_transparent', 'C18_months_constant', 'C18_readers_independe
     THEOREMS[_n + '_nonvacuous'] = 'the hypotheses of %s are satisfied by a concrete non-trivial instance' % _n
 
 THEOREMS.update({
-    'C18_capture_restores': 'pybtex/errors.py operation by operation (model with an explicit STACK of capture() frames; nothing in its shape restores anything): a '
-                            'capture() block whose body is ANY sequence of report_error / set_strict_mode / further capture() blocks -- hypothesis: the body closes '
-                            'exactly the blocks it opens (finalDepth 0 body = some 0) -- entered in ANY state (inside other blocks or not, strict or not, any error_code): '
-                            'on leaving, captured_errors is the value it had on entry, the frame stack is as before, error_code / month table / registry / both caches '
-                            'untouched, strict = what the body\'s last set_strict_mode said, the list handed out = the reports made outside inner blocks as read off the '
-                            'text of the body (topReports), and no operation inside raised or printed',
+    'C18_capture_restores': "pybtex/errors.py operation by operation (model with an explicit STACK of capture() frames; nothing in its shape restores anything): a capture() block whose body is ANY sequence of report_error / set_strict_mode / further capture() blocks -- hypothesis: the body closes exactly the blocks it opens (finalDepth 0 body = some 0) -- entered in ANY state (inside other blocks or not, strict or not, any error_code): on leaving, captured_errors is the value it had on entry, the frame stack is as before, error_code / month table / registry / both caches untouched, strict = what the body's last set_strict_mode said, the list handed out = the reports made outside inner blocks as read off the text of the body (topReports), and no operation inside raised or printed [content: captured_errors, frame stack, error_code, strict, the list handed out; month table / registry / both caches untouched holds by construction: no operation of errors.py writes them]",
     'C18_capture_collects_independent': 'corollary: what a balanced capture() block hands out is the same from two ARBITRARY states of errors.* (removes "top level" for '
                                         'the errors module itself; the World theorems still assume captured_errors None at the start)',
     'C18_capture_restores_neg_unrestored': 'witness that the stack model can fail: with leaving = "captured_errors = None" (the module before the committed repair of '
